@@ -180,7 +180,7 @@ type c16Spec struct {
 	CascGap string `json:"cascade_vs_new_source"` // behind equal ahead
 }
 
-var c16Events = []string{"source_dies", "source_lags", "source_returns_behind", "all_ha_replicas_dead", "switch_request", "reconfigure", "convert_at_outage", "collector_query_fails_on_cascade"}
+var c16Events = []string{"source_dies", "source_lags", "source_returns_behind", "all_ha_replicas_dead", "switch_request", "reconfigure", "convert_at_outage", "collector_query_fails_on_cascade", "config_read_fails"}
 
 func c16Sim(u *Unit) {
 	r := rand.New(rand.NewSource(u.Seed))
@@ -199,6 +199,32 @@ func c16Sim(u *Unit) {
 		}}
 	u.Scenario(fmt.Sprintf("c16-%d-%s", u.Idx, sp.Event), sp, opts, func(sc *Scen) {
 		s := sc.S
+		// config_read_fails: the k-th read of one path inside a manager iteration fails (the first read of an iteration
+		// belongs to the refresh of the host list, the later ones to the repair of the cascade replicas)
+		var cfgMu sync.Mutex
+		cfgPath, cfgK, cfgN := "", 0, 0
+		if sp.Event == "config_read_fails" {
+			s.OnIter(func(inst, state, next string, begin bool) {
+				if begin && state == "Manager" {
+					cfgMu.Lock()
+					cfgN = 0
+					cfgMu.Unlock()
+				}
+			})
+			s.DCSGate = func(name, method, path string) error {
+				cfgMu.Lock()
+				defer cfgMu.Unlock()
+				if cfgPath == "" || path != cfgPath || (method != "Get" && method != "GetChildren") || name != lockHolder(s) {
+					return nil
+				}
+				cfgN++
+				if cfgN == cfgK {
+					cfgPath = ""
+					return fmt.Errorf("zk: connection closed (injected)")
+				}
+				return nil
+			}
+		}
 		var mu sync.Mutex
 		moves := 0
 		convertedLate := ""
@@ -357,6 +383,33 @@ func c16Sim(u *Unit) {
 			fileSwitch(sc, hosts[0], "", "manual", "switchover", "operator")
 			time.Sleep(40 * time.Second)
 			sc.Cover("switch-with-cascade")
+		case "config_read_fails":
+			// everything is healthy; single reads of the cascade configuration fail (first the replica's own entry, then -
+			// in a chain - its child's, then the listing): a replica on its healthy configured source stays there
+			mu.Lock()
+			before := moves
+			mu.Unlock()
+			for _, p := range []string{"cascade_nodes/cas-db9", "cascade_nodes/cas-db8", "cascade_nodes"} {
+				if p == "cascade_nodes/cas-db8" && !sp.Chain {
+					continue
+				}
+				for _, k := range []int{2, 3} {
+					cfgMu.Lock()
+					cfgPath, cfgK, cfgN = p, k, 99 // (counting starts with the next iteration)
+					cfgMu.Unlock()
+					time.Sleep(12 * time.Second)
+				}
+			}
+			cfgMu.Lock()
+			cfgPath = ""
+			cfgMu.Unlock()
+			mu.Lock()
+			after := moves
+			mu.Unlock()
+			if after != before {
+				sc.Violate("C16", "healthy-cascade-replica-moved-after-a-failed-configuration-read", fmt.Sprintf("%d CHANGE SOURCE statements reached cascade replicas while every host was healthy and only single reads of the cascade configuration failed", after-before), w.Describe())
+			}
+			sc.Cover("cascade-configuration-read-failed")
 		case "reconfigure":
 			s.ZK.Put("operator", NS+"/cascade_nodes/cas-db9", fmt.Sprintf(`{"stream_from":%q}`, hosts[len(hosts)-1]))
 			if sp.CascGap == "ahead" {
@@ -405,7 +458,7 @@ func c16Run(u *Unit) {
 func init() {
 	register(&Prop{ID: "C16", Units: func(tier string) int { return tierN(tier, 8, 32) + tierN(tier, 150, 3000) }, Run: c16Run,
 		Floor: func(string) []string {
-			return []string{"cascade-moved", "move:candidate-ahead", "only-cascade-alive", "switch-with-cascade"}
+			return []string{"cascade-moved", "move:candidate-ahead", "only-cascade-alive", "switch-with-cascade", "cascade-configuration-read-failed"}
 		},
 		Rule: "resolution: random stream_from maps over 2-5 hosts (chains, cycles, self references, unregistered hosts, HA nodes as sources) x ping/offline/role/replication/lag of every host x current source of the replica, the real findBestStreamFrom compared with an independent chain walk under a termination watchdog; cluster part: cascade replicas (one or a two-level chain) while their source dies, lags, returns behind, is reconfigured, all HA replicas die, switch requests name them; every CHANGE SOURCE at a cascade replica is judged on ground truth (new source contains its transactions unless it had no working replication), lists, promotions and automatic requests against cascade hosts; distinct by the cover tuples"})
 }
